@@ -41,6 +41,8 @@ var (
 	vDump      string // what the disassembler prints for the binary (a function of the binary, i.e. of its hash)
 	vDumpFails int    // 0 ok, 1 fails after printing a prefix
 	vRunCalls  int
+	vWriteFail bool   // writes to the file system may fail (disk full, quota): Flush writes a prefix and errs, Close may err
+	vFailSeq   int
 )
 
 func vFS(name string) *vFileState {
@@ -143,10 +145,15 @@ func vstubFileWrite(f *os.File, b []byte) (int, error) {
 }
 
 func vstubFileClose(f *os.File) error {
-	if h, ok := vHandles[f]; ok {
+	h, ok := vHandles[f]
+	already := ok && h.closed
+	if ok {
 		h.closed = true
 	}
 	vCrashPoint("close")
+	if vWriteFail && ok && h.writing && !already && vChoice("close.fails", 2) == 1 {
+		return errors.New("close failed")
+	}
 	return nil
 }
 
@@ -186,6 +193,19 @@ func vstubWriteString(w *bufio.Writer, s string) (int, error) {
 }
 
 func vstubFlush(w *bufio.Writer) error {
+	if vWriteFail && vChoice("flush.fails", 2) == 1 {
+		// the device takes only part of the buffered data
+		if f, ok := vWriters[w]; ok {
+			if h := vHandles[f]; h != nil && !h.closed {
+				vFailSeq++
+				part := vStr("flushed" + strconv.Itoa(vFailSeq))
+				vAssume(vPrefixOf(part, vPending[w]))
+				vFS(h.name).content += part
+			}
+		}
+		vPending[w] = ""
+		return errors.New("no space left on device")
+	}
 	if f, ok := vWriters[w]; ok {
 		if h := vHandles[f]; h != nil && !h.closed {
 			vFS(h.name).content += vPending[w]
@@ -224,7 +244,8 @@ func vstubCmdRun(c *exec.Cmd) error {
 // run is uninterrupted. Whenever the second run returns a path, the file there
 // must be complete for the binary: hash, newline, the full disassembly.
 // Parameters: samehash (1: second run for the same binary, 0: another one),
-// firstfails (1: disassembler of run 1 fails), crash (1: run 1 may crash).
+// firstfails (1: disassembler of run 1 fails), crash (1: run 1 may crash),
+// wfail (1: writes of run 1 may fail: Flush takes a prefix and errs, Close errs).
 func H_Objdump() {
 	vFiles = map[string]*vFileState{}
 	vHandles = map[*os.File]*vHandle{}
@@ -248,6 +269,7 @@ func H_Objdump() {
 	// run 1
 	vDump, vDumpFails = d1, vParamInt("firstfails")
 	vCrashOn, vCrashed = vParamInt("crash") == 1, false
+	vWriteFail = vParamInt("wfail") == 1
 	var p1 string
 	var e1 error
 	code1 := vRun(func() { p1, e1 = doObjdump("bin", h1) })
@@ -272,7 +294,7 @@ func H_Objdump() {
 	vWriters = map[*bufio.Writer]*os.File{}
 	vPending = map[*bufio.Writer]string{}
 	vDump, vDumpFails = d2, 0
-	vCrashOn = false
+	vCrashOn, vWriteFail = false, false
 	before := vRunCalls
 	var p2 string
 	var e2 error
